@@ -85,6 +85,15 @@ def gen(seed, tier):
         o = {"i": "e", "u": -1, "o": r.choice(["d", "D", "sd", "aD"]), "O": ("%.5f,%.5f" % (olat, olon)).encode().hex().upper()}
         cases.append(("C15-o%d" % n, "C", opts_str(o), seg(0, lines)))
         n += 1
+    # large tables (more rows than any block or buffer size someone might choose): still each aircraft once, in key order
+    for i, size in enumerate([65, 66, 129, 200] if tier == "quick" else [63, 64, 65, 66, 127, 128, 129, 130, 200, 257, 300, 513]):
+        addrs = r.sample(range(1, 1 << 24), size)
+        lines = []
+        for a in addrs:
+            lines.append(r.choice([g.f_short(5, a, (r.getrandbits(14) << 13) | r.getrandbits(13)), g.f_short(4, a, ac13_from_alt25(r.randint(40, 1600))), g.f_df11(a)]))
+        o = {"i": r.choice(["e", "x"]), "u": -1, "o": r.choice(["x", "s", "a", "A", "sA"]), "d": 100000}
+        cases.append(("C15-big%d" % i, "C", opts_str(o), seg(0, lines)))
+        n += 1
     # rows that were swept and heard again shortly afterwards (--delete-after 0: every sweep empties the table): still one
     # row per aircraft, still in key order
     for i in range(6 if tier == "quick" else 60):
